@@ -31,10 +31,11 @@ THEOREMS_BY_PROP = {
     'C03': ['reduce_none_is_reduce_of_flatten'],
     'C05': ['unflatten_flatten', 'unflatten_flatten_plain', 'flatten_none_app'],
     'C07': ['cartesian_is_product', 'cartesian_length', 'cartesian_pair_index', 'cartesian_nested_pair'],
-    'C08': ['concat_axis0_app', 'concat_axis1_zipapp'],
-    'C09': ['is_none_exact', 'is_none_exact_axis1', 'mask_exact', 'fill_none_exact', 'fill_none_exact_axis1',
+    'C08': ['concat_axis0_app', 'concat_axis1_zipapp', 'concat_axis1_lengths'],
+    'C09': ['is_none_exact', 'is_none_exact_axis1', 'mask_exact', 'mask_exact_lists', 'fill_none_exact', 'fill_none_exact_axis1',
             'firsts_singletons'],
-    'C10': ['unzip_zip_partial', 'with_field_get_same', 'with_field_get_other', 'with_field_preserves_shape'],
+    'C10': ['unzip_zip_partial', 'unzip_zip_lists', 'with_field_get_same', 'with_field_get_other', 'with_field_preserves_shape',
+            'with_field_preserves_lists'],
 }
 THEOREMS = [t for p_ in sorted(THEOREMS_BY_PROP) for t in THEOREMS_BY_PROP[p_]]
 RULE = ('value-first random layouts (every list/option encoding) wrapped in ak.Array x the Python-level function with '
@@ -944,7 +945,49 @@ def cases_C10(rng, tier):
     return out
 
 
-CASES = dict(C03=cases_C03, C05=cases_C05, C07=cases_C07, C08=cases_C08, C09=cases_C09, C10=cases_C10)
+GENERATORS = dict(C03=cases_C03, C05=cases_C05, C07=cases_C07, C08=cases_C08, C09=cases_C09, C10=cases_C10)
+
+
+def case_of_line(ln, meta=None):
+    """a case line '(id func args... (arr L)...)' -> common.Case"""
+    tree = parse_tree(ln.strip())
+    cid, op, rest = str(tree[0]), str(tree[1]), tree[2:]
+    args, lays = [], []
+    for x in rest:
+        if isinstance(x, list) and x and x[0] in ('arr', 'val'):
+            lays.append(G.sx(x))
+        else:
+            args.append(G.sx(x))
+    return C.Case(cid, op, args, lays, meta or {})
+
+
+def load_corpus(prop):
+    """minimised past disagreements (/verif/cpy/corpus/<prop>.case): run before the generated cases"""
+    path = os.path.join(CPY, 'corpus', prop + '.case')
+    out = []
+    if not os.path.exists(path):
+        return out
+    meta = None
+    for ln in open(path):
+        ln = ln.strip()
+        if ln.startswith('#meta '):
+            meta = json.loads(ln[6:])
+        elif ln and not ln.startswith('#'):
+            out.append(case_of_line(ln, meta))
+            meta = None
+    return out
+
+
+def _with_corpus(prop):
+    def f(rng, tier):
+        return load_corpus(prop) + GENERATORS[prop](rng, tier)
+    f.__name__ = 'cases_' + prop
+    return f
+
+
+CASES = {p_: _with_corpus(p_) for p_ in GENERATORS}
+for _p in GENERATORS:
+    globals()['cases_' + _p] = CASES[_p]
 
 
 # ---------------------------------------------------------------------------------------------- signatures
@@ -1139,8 +1182,7 @@ def replay_cases(path):
         ln = ln.strip()
         if not ln or ln.startswith('#'):
             continue
-        m = re.match(r'^\((\S+) (\S+) (.*)\)$', ln)
-        out.append(C.Case(m.group(1), m.group(2), [m.group(3)], [], {}))
+        out.append(case_of_line(ln))
     return out
 
 
